@@ -886,7 +886,14 @@ def annotate_ancestry(node):
     node._location = [node.name] if hasattr(node, "name") else []
     parent_location = []
     for _node in walk(node):
-        name = [_node.name] if hasattr(_node, "name") else []
+        # Full path of the parent (it was annotated earlier in this breadth-first walk), not just its own name
+        name = (
+            list(_node._location)
+            if hasattr(_node, "_location") and hasattr(_node, "name")
+            else [_node.name]
+            if hasattr(_node, "name")
+            else []
+        )
         for child_node in iter_child_nodes(_node):
             if hasattr(child_node, "name") and not isinstance(child_node, alias):
                 child_node._location = name + [child_node.name]
